@@ -528,6 +528,27 @@ impl Run {
                 let _ = self.pipes.send(theirs);
                 settle().await;
             }
+            "reconn" => {
+                // a new connection if the endpoint closed the previous one (or there is none)
+                if let Some(conn) = self.conn.as_mut() {
+                    let w = decode_wire(conn);
+                    if w.eof {
+                        conn.eof_seen = true;
+                    }
+                }
+                let closed = self.conn.as_ref().map(|c| c.eof_seen).unwrap_or(true);
+                line.insert("was_closed".into(), json!(closed));
+                if closed {
+                    if let Some(c) = self.conn.take() {
+                        c.reader_task.abort();
+                    }
+                    settle().await;
+                    let (c, theirs) = Conn::open(self.clock);
+                    self.conn = Some(c);
+                    let _ = self.pipes.send(theirs);
+                    settle().await;
+                }
+            }
             "cut" => {
                 if let Some(c) = self.conn.take() {
                     c.reader_task.abort();
@@ -585,8 +606,21 @@ impl Run {
             }
             "raw" => {
                 let bytes = codec::unhex(st["hex"].as_str().unwrap_or(""));
+                let sizes: Vec<usize> = st["chunks"].as_array().map(|a| a.iter().map(|x| (x.as_u64().unwrap_or(1) as usize).max(1)).collect()).unwrap_or_default();
                 if let Some(c) = self.conn.as_mut() {
-                    c.write(&bytes).await;
+                    let mut pos = 0;
+                    for n in sizes {
+                        if pos >= bytes.len() {
+                            break;
+                        }
+                        let end = (pos + n).min(bytes.len());
+                        c.write(&bytes[pos..end]).await;
+                        pos = end;
+                        settle().await;
+                    }
+                    if pos < bytes.len() {
+                        c.write(&bytes[pos..]).await;
+                    }
                 }
                 line.insert("len".into(), json!(bytes.len()));
                 settle().await;
